@@ -1,6 +1,7 @@
 SPECIFICATION Spec
 CONSTANTS
   MaxLen = 2
+  Directed = FALSE
   Emit = FALSE
 INVARIANT Inv
 CHECK_DEADLOCK FALSE
